@@ -6,6 +6,7 @@ package main
 import (
 	"encoding/json"
 	"fmt"
+	"go/types"
 	"os"
 
 	"golang.org/x/tools/go/types/objectpath"
@@ -97,7 +98,17 @@ Run "garble map" with the same garble flags used to build, since flags such as
 			if parent := obj.Parent(); parent != nil && parent != tf.pkg.Scope() {
 				continue
 			}
-			newName, ok := tf.obfuscatedObjectName(obj)
+			// An embedded field is named after its type in the build, whether the
+			// type is an alias or not; see the same logic in transformGoFile.
+			nameObj := obj
+			if vr, ok := obj.(*types.Var); ok && vr.Embedded() {
+				tname := namedType(vr.Type())
+				if tname == nil {
+					continue // unnamed type, e.g. a basic type like int
+				}
+				nameObj = tname
+			}
+			newName, ok := tf.obfuscatedObjectName(nameObj)
 			if !ok {
 				continue // not obfuscated
 			}
